@@ -8,7 +8,7 @@
     (a callable calling once on the same cache self-deadlocks in the code; out of the property). *)
 From Coq Require Import List NArith Bool Arith.
 Import ListNotations.
-From Dawn Require Import Cache.Model Cache.Run Cache.Proofs.
+From Dawn Require Import Cache.Model Cache.Run Cache.Proofs Cache.NestedModel Cache.NestedProofs.
 
 (** Per key, at most one successful invocation of a callable is ever recorded: the list of values
     produced by successful invocations for k has length <= 1; equivalently, if the history contains
@@ -155,6 +155,58 @@ Theorem accepts_sound : forall c,
 Proof. exact accepts_sound_lemma. Qed.
 Print Assumptions accepts_sound.
 
+(** ---- callers in context: several caches, callables that call once on another cache ----
+
+    Cache/NestedModel.v: n caches, threads with a stack of activations of once; a callable may call
+    once on a cache of higher number with its thread ([ranked_progs]; same-cache re-entrancy blocks,
+    see test_reentrant_blocks).  So a caller of cache i may be inside the callable of another cache,
+    holding that cache's write lock, while other threads call cache i directly.  [proj i M] is cache
+    i's part of the state: its entries and lock, per thread the activation of once on i (or idle),
+    and the events of cache i. *)
+
+(** The projection of every reachable state of the nested system onto any cache is a reachable state
+    of the single-cache model (for the configuration made of the calls that were actually made on
+    that cache).  Hence every theorem above holds for each cache of the nested system. *)
+Theorem nested_projection : forall n progs M i,
+  ranked_progs progs = true -> mreachable n progs M ->
+  exists cfg, reachable cfg (proj i M) /\ length cfg = length progs.
+Proof. exact nested_projection_lemma. Qed.
+Print Assumptions nested_projection.
+
+(** Spelled out.  Per cache and key at most one successful invocation, wherever the callers are. *)
+Theorem nested_once_at_most_once_success : forall n progs M i k,
+  ranked_progs progs = true -> mreachable n progs M ->
+  length (succ_vals k (proj_hist i (m_hist M))) <= 1 /\
+  (forall h1 h2 t1 v1, proj_hist i (m_hist M) = h1 ++ EInvoke t1 k (Ok v1) :: h2 ->
+     forall t2 v2, ~ In (EInvoke t2 k (Ok v2)) (h1 ++ h2)).
+Proof. exact nested_at_most_once. Qed.
+Print Assumptions nested_once_at_most_once_success.
+
+(** Every value returned by once on cache i for key k is the value stored in cache i under k, the
+    value of the single successful invocation on that cache; two callers (nested or not) agree. *)
+Theorem nested_once_same_value : forall n progs M i t k v,
+  ranked_progs progs = true -> mreachable n progs M ->
+  In (i, EReturn t k (RVal v)) (m_hist M) ->
+  lookup k (c_entries (nth i (m_caches M) (mkC [] 0 false))) = Some v /\
+  succ_vals k (proj_hist i (m_hist M)) = [v].
+Proof. exact nested_same_value. Qed.
+Print Assumptions nested_once_same_value.
+
+Theorem nested_once_same_value_pair : forall n progs M i t1 t2 k v1 v2,
+  ranked_progs progs = true -> mreachable n progs M ->
+  In (i, EReturn t1 k (RVal v1)) (m_hist M) -> In (i, EReturn t2 k (RVal v2)) (m_hist M) -> v1 = v2.
+Proof. exact nested_same_value_pair. Qed.
+Print Assumptions nested_once_same_value_pair.
+
+(** A cache in which no callable for k has succeeded (e.g. the nested callable failed and the error
+    went up through the outer once) has no entry for k. *)
+Theorem nested_once_failure_stores_nothing : forall n progs M i k,
+  ranked_progs progs = true -> mreachable n progs M ->
+  succ_vals k (proj_hist i (m_hist M)) = [] ->
+  lookup k (c_entries (nth i (m_caches M) (mkC [] 0 false))) = None.
+Proof. exact nested_failure_stores_nothing. Qed.
+Print Assumptions nested_once_failure_stores_nothing.
+
 (** ---- tests (not claims): exhaustive exploration of ALL interleavings of tiny configurations ---- *)
 Open Scope N_scope.
 
@@ -200,3 +252,50 @@ Example test_accepts_rejects_double_invocation :
                   [ECall 0 0; ECall 1 0; EInvoke 1 0 (Ok 2); EInvoke 0 0 (Ok 1); EReturn 0 0 (RVal 1); EReturn 1 0 (RVal 2)]
                   [(0, Some 1)]) = false.
 Proof. vm_compute. reflexivity. Qed.
+
+(* ---- nested system ---- *)
+(* explore every interleaving from the state reached by [sched] (false if [sched] cannot be run) *)
+Definition explore_after (n : nat) (progs : list (list ncall)) (sched : list nat) (fuel : nat) (check : mstate -> bool) : bool :=
+  match mrun (minit n progs) sched with Some M => mexplore fuel check M | None => false end.
+
+(* thread 0: cache0.once(0, f) where f calls cache1.once(0, g); thread 1: cache1.once(0, g') directly.
+   Every interleaving from the moment thread 0 has entered the nested once (7 steps: its activation
+   on cache 0 is at PCall, holding cache 0's write lock). *)
+Definition nested_min := [[NCall 0 0 [NCall 1 0 [] (Ok 1)] (Ok 5)]; [NCall 1 0 [] (Ok 3)]].
+Example test_nested_min : explore_after 2 nested_min (repeat 0%nat 7) 40 (mstate_ok 2 [0]) = true.
+Proof. vm_compute. reflexivity. Qed.
+
+(* the nested callable fails and the outer callable fails with it *)
+Example test_nested_fail :
+  explore_after 2 [[NCall 0 0 [NCall 1 0 [] Fail] Fail]; [NCall 1 0 [] (Ok 3)]] (repeat 0%nat 7) 40 (mstate_ok 2 [0]) = true.
+Proof. vm_compute. reflexivity. Qed.
+
+(* two nested callers through different keys of cache 0, same key of cache 1: all interleavings from the start *)
+Example test_nested_two :
+  all_nested_interleavings_ok 2 [0; 1]
+    [[NCall 0 0 [NCall 1 0 [] (Ok 1)] (Ok 5)]; [NCall 0 1 [NCall 1 0 [] (Ok 2)] (Ok 6)]] = true.
+Proof. vm_compute. reflexivity. Qed.
+
+(* the explorer does report a false property as false (every full run of nested_min has 8 events), and a
+   prefix that cannot be run is not a pass *)
+Example test_nested_explorer_detects :
+  explore_after 2 nested_min (repeat 0%nat 7) 40 (fun M => Nat.leb (length (m_hist M)) 7) = false /\
+  explore_after 2 nested_min (repeat 0%nat 7) 40 (fun M => Nat.leb (length (m_hist M)) 8) = true /\
+  explore_after 2 nested_min (repeat 1%nat 11) 40 (fun _ => true) = false.
+Proof. vm_compute. auto. Qed.
+
+(* one full run with a racing direct caller: thread 1 calls cache 1 while thread 0 is in the nested callable's
+   once (thread 0 gets there first, thread 1 receives thread 0's value); the projections are what the
+   correspondence check compares *)
+Example test_nested_run :
+  exists M, mrun (minit 2 nested_min) (repeat 0 7 ++ [1] ++ repeat 0 9 ++ repeat 1 4 ++ repeat 0 4)%nat = Some M /\
+  mall_done M = true /\
+  rev (proj_hist 1 (m_hist M)) = [ECall 0 0; ECall 1 0; EInvoke 0 0 (Ok 1); EReturn 0 0 (RVal 1); EReturn 1 0 (RVal 1)] /\
+  rev (proj_hist 0 (m_hist M)) = [ECall 0 0; EInvoke 0 0 (Ok 5); EReturn 0 0 (RVal 5)].
+Proof. eexists. split; [vm_compute; reflexivity|]. vm_compute. auto. Qed.
+
+(* same-cache re-entrancy: the nested activation blocks for ever at RLock (the code self-deadlocks) *)
+Example test_reentrant_blocks :
+  exists M, mrun (minit 1 [[NCall 0 0 [NCall 0 1 [] (Ok 2)] (Ok 1)]]) (repeat 0%nat 7) = Some M /\
+            mstep M 0 = None /\ mall_done M = false.
+Proof. eexists. split; [vm_compute; reflexivity|]. split; vm_compute; reflexivity. Qed.
